@@ -6,6 +6,7 @@ Import ListNotations.
 From Supp Require Import Model.PyCore Model.Reach Model.Sem Model.SemX
   Proofs.ReachProofs Proofs.ReachCorollaries Proofs.SemXProofs.
 From Supp Require Import Model.ReachX Proofs.ReachXBridge.
+From Supp Require Import Model.Nested Proofs.NestedProofs.
 
 (* Every run of every command (no restriction: return, break, continue, exceptions raised
    anywhere and caught by any enclosing try, finally clauses), from any state whose bound names
@@ -55,3 +56,57 @@ Theorem C01_visible_any_exit_x : forall fuel c ds p' tr o ds' r d,
   visiblex c aenv0 r = true /\ e02x c aenv0 r = false.
 Proof. exact visiblex_any_exit. Qed.
 Print Assumptions C01_visible_any_exit_x.
+
+(* ---- inter-scope composition (Model/Nested.v) -------------------------------------------------
+   A function body [ci] nested in the chain of enclosing function bodies [outers] (outermost first).
+   supp analyses it from [entry_a outers ci]: own locals unbound, every other name as the enclosing
+   scope ENDS with (tied to the code by part D of the check: supp's alternatives at every read of
+   every level of generated chains = [seen_nested]).  The call may happen at any time, so the
+   run-time namespace is any [p] that Python's LEGB rule allows ([rt_env]: own locals unbound; a
+   free name can be bound only if some enclosing body binds it).  Then every run of the body with
+   any abrupt exits: a read that finds its name bound - in its own frame or an enclosing one - is
+   visible to supp there and not reported E02. *)
+Theorem C01_nested_visible : forall outers ci fuel ds p p' tr o ds' r d,
+  rt_env outers ci p ->
+  runX fuel ci p ds = DoneX p' tr o ds' -> In (r, Some d) tr ->
+  visible_nested outers ci r = true /\ e02_nested outers ci r = false.
+Proof. exact nested_visible. Qed.
+Print Assumptions C01_nested_visible.
+
+(* ... and the namespace the run ends with is covered by what this scope exports, so the premise
+   [rt_env] of the next level down is met by induction along the chain. *)
+Theorem C01_nested_final_covered : forall outers ci fuel ds p p' tr o ds',
+  rt_env outers ci p ->
+  runX fuel ci p ds = DoneX p' tr o ds' ->
+  dabs p' (exit_chain (outers ++ [ci])).
+Proof. exact nested_final_covered. Qed.
+Print Assumptions C01_nested_final_covered.
+
+Theorem C01_chain_defines_every_enclosing_binding : forall outers x c,
+  In c outers -> In x (binds c) -> exists d, In (Some d) (exit_chain outers x).
+Proof. exact exit_chain_defines. Qed.
+Print Assumptions C01_chain_defines_every_enclosing_binding.
+
+(* Non-vacuity:   def main():              def inner():
+                      x = 1 (site 1)           print(x) (read 10)   - x free: bound by main
+                      if c: y = 2 (site 2)     y = 3 (site 3)
+                                               print(y) (read 11)   - y local
+   called when main has bound x (to site 1): both reads succeed and are visible; the read of the
+   free name lists main's final alternatives. *)
+Definition ex_outer : cmd := Seq (Bind 1 0) (Branch (Bind 2 1) Skip).
+Definition ex_inner : cmd := Seq (Read 10 0) (Seq (Bind 3 1) (Read 11 1)).
+Definition ex_p : renv := fun x => if N.eqb x 0 then Some 1 else None.
+Example C01_nested_example :
+  rt_env [ex_outer] ex_inner ex_p /\
+  (exists p' ds', runX 20 ex_inner ex_p [] = DoneX p' [(10, Some 1); (11, Some 3)] XN ds') /\
+  forallb (alt_eqb (Some 1)) (seen_nested [ex_outer] ex_inner 10) = true /\
+  forallb (alt_eqb (Some 3)) (seen_nested [ex_outer] ex_inner 11) = true /\
+  visible_nested [ex_outer] ex_inner 10 = true.
+Proof.
+  split.
+  - intros x d H. unfold ex_p in H. destruct (N.eqb x 0) eqn:E; [|discriminate H].
+    apply N.eqb_eq in E. subst x. split; [reflexivity|].
+    exists ex_outer. split; [left; reflexivity|left; reflexivity].
+  - split; [eexists; eexists; vm_compute; reflexivity|].
+    repeat split; vm_compute; reflexivity.
+Qed.
